@@ -4,11 +4,12 @@ import json
 def P(*ms): return ['Sx.Proofs.' + m for m in ms]
 def Q(*ms): return ['Sx.Props.' + m for m in ms]
 reg = {
- 'C01': (P('FlatAdd','FlatInv','FlatFresh','FlatBasis8','FlatDelete2','FlatRestrict2','FlatSubdiv','FlatRelabel','FlatClosed','FlatDelete') + Q('Relabel','Copy','Generators'),
+ 'C01': (P('FlatAdd','FlatInv','FlatFresh','FlatBasis8','FlatDelete2','FlatRestrict2','FlatSubdiv','FlatRelabel','FlatClosed','FlatDelete') + Q('Relabel','Copy','Generators','AddFrom','C01'),
    ['Flat.addSimplex_ok_inv','Flat.Inv.faces_are_facets','Flat.newSimplex_fresh','Flat.addSimplexWithBasis_spec','Flat.deleteSimplex_spec','Flat.restrict_spec','Flat.subdivide_spec','Flat.Inv.map','Flat.relabelSimplex_inv','Flat.Inv.filter_upclosed','Flat.foldl_forceDelete','Flat.Inv.subset_simplex',
-    'Flat.relabel_spec','Flat.relabelDisjointFrom_spec','Flat.copyNew_spec','Flat.genPoints_spec']),
- 'C02': (P('FlatBasis7','FlatBasis8','FlatDelete2','FlatRestrict','FlatRestrict2','FlatSubdiv'),
-   ['Flat.addWB_spec','Flat.addSimplexWithBasis_spec','Flat.deleteSimplex_spec','Flat.restrictRetain_spec','Flat.restrict_spec','Flat.coneLoop_spec','Flat.subdivide_spec']),
+    'Flat.relabel_spec','Flat.relabelDisjointFrom_spec','Flat.copyNew_spec','Flat.genPoints_spec','Flat.addFrom_inv',
+    'Flat.C01.step_inv','Flat.C01.run_inv','Flat.C01.reachable_inv','Flat.C01.reachable_inv_prefix','Flat.C01.maxOrder_spec','Flat.C01.names_nodup','Flat.C01.sorted_by_order','Flat.C01.perOrder_partition','Flat.C01.checkInv_iff','Flat.C01.reachable_checkInv']),
+ 'C02': (P('FlatBasis7','FlatBasis8','FlatDelete2','FlatRestrict','FlatRestrict2','FlatSubdiv') + Q('AddFrom'),
+   ['Flat.addWB_spec','Flat.addSimplexWithBasis_spec','Flat.deleteSimplex_spec','Flat.restrictRetain_spec','Flat.restrict_spec','Flat.coneLoop_spec','Flat.subdivide_spec','Flat.addFrom_spec','Flat.addFrom_spec_perm','Flat.addFrom_prefix','Flat.addFrom_reject']),
  'C03': (P('MatDecode','BdBd','FlatStar') + Q('Views','Homology'),
    ['M2.decode_appendCol_old','M2.decode_appendCol_new','M2.decode_appendZeroRow','M2.decode_deleteCol','M2.decode_deleteRow','Flat.bd_bd_even','Flat.mem_cofaces',
     'Flat.cofaces_inverse','Flat.basis_is_closure_points','Flat.bopMat_shape','Flat.bopMat_entry','Flat.bopMat_zero','Flat.bop_bop_zero','Flat.boundary_single','Flat.boundary_mod2','Flat.boundary_boundary_empty']),
@@ -32,7 +33,7 @@ reg = {
  'C12': (P('FlagMain') + Q('VR'), ['Flat.flagComplex_spec','Flat.vietorisRips_spec','Flat.vr_mono','Flat.vr_none','Flat.vr_all']),
  'C13': (P('FiltCore') + Q('Filtration'), ['Flat.visible_inv','Flat.visible_mono','Flat.newFS_FInv','Flat.setIndex_FInv','Flat.addByFaces_FInv','Flat.addByFaces_FInv_contract','Flat.addByBasis_FInv','Flat.delete_FInv','Flat.visibleC_spec','Flat.indices_sorted','Flat.iterate_restores','Flat.FInv_iff_check']),
  'C14': (P('FiltQuery') + Q('Filtration'), ['Flat.fContains_iff','Flat.fSimplices_eq','Flat.fCount_order','Flat.nextIndex_spec','Flat.simplices_eq','Flat.visible_eq_contains','Flat.visible_same','Flat.count_eq','Flat.counts_eq','Flat.euler_eq','Flat.next_spec','Flat.prev_spec','Flat.next_not_key','Flat.toMin_spec','Flat.toMax_spec','Flat.maxOrder_not_scoped']),
- 'C15': (P('FlatRelabel') + Q('Relabel'), ['Flat.Inv.map','Flat.relabelSimplex_inv','Flat.fold_relabel_eq_map','Flat.relabel_spec','Flat.relabel_spec_pos','Flat.relabel_ok_iff','Flat.relabel_rejected','Flat.relabel_chain_rejected','Flat.freshArrow_fuel','Flat.disjointRenaming_spec','Flat.relabelDisjointFrom_spec']),
+ 'C15': (P('FlatRelabel') + Q('Relabel','AddFrom','Homology'), ['Flat.Inv.map','Flat.relabelSimplex_inv','Flat.fold_relabel_eq_map','Flat.relabel_spec','Flat.relabel_spec_pos','Flat.relabel_ok_iff','Flat.relabel_rejected','Flat.relabel_chain_rejected','Flat.freshArrow_fuel','Flat.disjointRenaming_spec','Flat.relabelDisjointFrom_spec','Flat.addFrom_spec','Flat.betti_relabel_invariant']),
  'C16': (P('Compose','Compose2') + Q('Copy'), ['Flat.compose_union','Flat.compose_ok_iff','Flat.composeNew_eq','Flat.composeNew_spec']),
  'C17': (P('Compose') + Q('Copy','Json'), ['Flat.compose_union','Flat.copyNew_spec','Flat.copy_eq','Flat.decode_encode_eq_copy','Flat.decode_encode','Flat.decode_encode_perm','Flat.encode_names','Flat.encode_faces_before','Flat.addSimplex_perm','Flat.decode_any_face_order','Flat.decode_encode_any_order']),
  'C18': (P('FlatCount') + Q('Generators'), ['Flat.full_simplex_counts','Flat.addWB_full','Flat.genPoints_spec','Flat.kSimplex_spec','Flat.kSimplex_counts','Flat.kVoid_spec','Flat.kVoid_counts','Flat.kSkeleton_spec','Flat.kSkeleton_counts','Flat.ring_spec',"Flat.ring_counts'",'Flat.ring_small']),
